@@ -33,6 +33,14 @@ def reset_exo_globals():
         getattr(NE, nm).clear()
     if "sym" in _base:
         Sym._unq_count = _base["sym"]
+    # fresh z3 context: z3's verdict on hard (div/mod) queries otherwise depends
+    # on everything the process asked before
+    try:
+        import z3
+
+        z3.z3._main_ctx = None
+    except Exception:
+        pass
     try:
         from exo.core.memory import StaticMemory
 
